@@ -32,6 +32,7 @@ pub fn amp_violations(p: &StdPair) -> (Vec<(String, String)>, u64) {
     let mut emitted: BTreeMap<u64, (usize, Vec<u8>, SocketAddr)> = BTreeMap::new();
     let server_addr = p.w.nodes[SERVER].addr;
     let mut challenges: BTreeMap<SocketAddr, Vec<u64>> = BTreeMap::new();
+    let mut token_leak_reported = false;
     for (t, a, v, _) in &p.w.nodes[SERVER].incomings {
         if *v {
             validated.entry(*a).or_insert(*t);
@@ -55,6 +56,17 @@ pub fn amp_violations(p: &StdPair) -> (Vec<(String, String)>, u64) {
                 for (_, frames) in decode(data, cid_len_of(&p.w, *dst)) {
                     for f in frames {
                         if let WFrame::PathChallenge(x) = f {
+                            // a challenge token is the secret only a host at THAT address can echo:
+                            // the same token must never be shown to a second address
+                            if let Some((other, _)) = challenges.iter().find(|(a, v)| *a != dst && v.contains(&x)) {
+                                if !token_leak_reported {
+                                    token_leak_reported = true;
+                                    out.push((
+                                        "path-challenge-token-shown-to-another-address".into(),
+                                        format!("server at {t:?} sends PATH_CHALLENGE({x}) to {dst}, the same token it sent to {other}: whoever receives it there can answer for {dst}"),
+                                    ));
+                                }
+                            }
                             challenges.entry(*dst).or_default().push(x);
                         }
                     }
